@@ -509,3 +509,84 @@ func c04Bounds(c *Ctx, f *ssa.Function, tr *an.Tracer) {
 		r.Check(len(bad) == 0, "R04.B", s.key, c.pos(s.instr.Pos()), sprintf("reachable at %d grid points; counterexamples: %s", points, strings.Join(bad, " | ")))
 	}
 }
+
+// honestLengthsAdmitted: for packets a conformant peer seals — ciphertext a positive multiple of 16, declared body
+// length M with 0..15 bytes of padding after it (32 + M + pad = len(decrypted)), msg_id of server parity — the success
+// exit of DeserializeEncrypted is reachable: no length test refuses them.  Returns the refused grid points.
+func honestLengthsAdmitted(c *Ctx, f *ssa.Function, tr *an.Tracer) (bad []string, points int, ok bool) {
+	isLenData := func(v ssa.Value) bool { return an.IsLenOf(v, func(x ssa.Value) bool { return isParam(x, f, 0) }) }
+	isLenDec := func(v ssa.Value) bool {
+		return an.IsLenOf(v, func(x ssa.Value) bool { return strings.Contains(tr.OriginString(x), "aes_ige.Decrypt#0") })
+	}
+	var lenCall *ssa.Call
+	for _, cs := range an.Calls(f) {
+		if strings.HasSuffix(cs.Name, ".PopInt") || strings.HasSuffix(cs.Name, ".PopUint") {
+			if call, isCall := cs.Instr.(*ssa.Call); isCall && !strings.Contains(c.destLabel(tr, call), "messages.Encrypted.") {
+				lenCall = call
+			}
+		}
+	}
+	var succ []ssa.Instruction
+	for _, p := range successPaths(f, 0) {
+		succ = append(succ, p.Ret)
+	}
+	succ = dedupInstr(succ)
+	if lenCall == nil || len(succ) == 0 {
+		return nil, 0, false
+	}
+	isID := func(v ssa.Value) bool {
+		if call, isCall := v.(*ssa.Call); isCall && strings.HasSuffix(an.CalleeName(call.Common()), ".PopLong") {
+			return strings.Contains(c.destLabel(tr, call), "messages.Encrypted.MsgID")
+		}
+		if ld, isLd := v.(*ssa.UnOp); isLd {
+			return strings.Contains(tr.OriginString(ld), "PopLong") && strings.Contains(an.NewTracerNoAlloc().OriginString(ld), "messages.Encrypted.MsgID")
+		}
+		return false
+	}
+	for _, N := range c.grid([]int64{40, 56, 72, 88, 1048, 1<<20 + 24}, 40, 2048, 16) {
+		D := N - 24
+		if D < 32 || D%16 != 0 {
+			continue
+		}
+		for pad := int64(0); pad < 16; pad++ {
+			M := D - 32 - pad
+			if M < 0 {
+				continue
+			}
+			points++
+			atom := func(v ssa.Value) (int64, bool) {
+				switch {
+				case isLenData(v):
+					return N, true
+				case isLenDec(v):
+					return D, true
+				case v == ssa.Value(lenCall):
+					return M, true
+				case isID(v):
+					return 5, true
+				}
+				return 0, false
+			}
+			reach := an.ReachWith(f, nil, func(i *ssa.If) (int, bool) {
+				v, evaluable := an.EvalCond(i.Cond, atom)
+				if !evaluable {
+					return 0, false
+				}
+				if v {
+					return 0, true
+				}
+				return 1, true
+			})
+			got := false
+			for _, ret := range succ {
+				if reach[ret.Block()] {
+					got = true
+				}
+			}
+			if !got && len(bad) < 4 {
+				bad = append(bad, sprintf("len(data)=%d declared=%d (%d padding bytes)", N, M, pad))
+			}
+		}
+	}
+	return bad, points, true
+}
